@@ -389,6 +389,10 @@ def BASE(value, base, places=DEFAULT):
             return places
         if places < 0:
             return error.NUM
+    if value < 0 or base < 2 or base >= 37:
+        return error.NUM
+    value = int(value)
+    base = int(base)
     if value == 0:
         return '0'
     digits = []
